@@ -310,6 +310,13 @@ class Report:
         self.conf = {"events": 0, "explained": 0}
         self.drift = []
         self.replay_n = 0
+        # replay files of earlier runs of this check are stale
+        import glob
+        for f in glob.glob(os.path.join(WORK, "replay", "%s_%s_*.json" % (prop, tier))):
+            try:
+                os.remove(f)
+            except OSError:
+                pass
 
     # -- model layer
     def add_model(self, r, expect_ok=True):
